@@ -303,7 +303,13 @@ func addR14a(w *World, r *Report, rule, tier string) {
 	fam := w.tracerFamilyFuncs()
 	for _, fn := range fam {
 		key := "vm." + fn.RelString(fn.Pkg.Pkg)
-		es := w.effectsOf(fn, effectOpts{maxDepth: 0, opaque: nil})
+		// calls of other recorder functions are judged on their own; any other fork function (a helper
+		// extracted from a recorder method) is followed and its effects count as the caller's
+		inFam := map[*ssa.Function]bool{}
+		for _, f2 := range fam {
+			inFam[f2] = true
+		}
+		es := w.effectsOf(fn, effectOpts{maxDepth: -1, opaque: func(c *ssa.Function) bool { return inFam[c] }})
 		var bad []string
 		for _, e := range es {
 			switch e.Kind {
@@ -340,7 +346,7 @@ func addR14a(w *World, r *Report, rule, tier string) {
 					bad = append(bad, e.String()+" at "+w.pos(e.Pos))
 				}
 			case "dyncall":
-				if fn.Name() == "TransferWithRecord" && strings.HasPrefix(e.What, "parameter transfer ") {
+				if fn.Name() == "TransferWithRecord" && strings.HasPrefix(e.What, "parameter ") && strings.HasSuffix(e.What, " P0.TransferFunc") {
 					continue // R13.1 proves: exactly one call, arguments (db, from, to, amount)
 				}
 				bad = append(bad, e.String()+" at "+w.pos(e.Pos))
